@@ -104,6 +104,99 @@ fn case(kinds: &[u8], cut: usize, chunk: usize) -> Option<String> {
     None
 }
 
+/// Snapshot building racing with an apply batch on the sender: openraft runs the snapshot
+/// builder in its own task, so every interleaving of `build_snapshot` with `apply` at their
+/// lock acquisitions (the scheduling points of the tokio stand-in) is executed. Whatever log
+/// id the snapshot claims, a receiver that installs it must hold the application state as of
+/// exactly that log id. Returns (schedules executed, first divergence).
+fn race_case(kinds: &[u8], cut: usize, k: usize) -> (u64, Option<String>) {
+    let entries: Vec<Entry<AppTypeConfig>> = kinds.iter().enumerate().map(|(i, k)| entry(i as u64 + 1, *k)).collect();
+    let normal_prefix = |n: usize| -> Vec<Vec<u8>> {
+        entries[..n].iter().filter_map(|e| if let EntryPayload::Normal(d) = &e.payload { Some(d.0.clone()) } else { None }).collect()
+    };
+    let mut work: Vec<Vec<usize>> = vec![vec![]];
+    let mut n = 0u64;
+    while let Some(prefix) = work.pop() {
+        n += 1;
+        tokio::sim::reset();
+        let s_rec = RecSm::new();
+        let mut sender = MemStateMachine::new(s_rec.clone() as StateMachine);
+        if let Err(e) = apply_chunks(&mut sender, &entries[..cut], 7) {
+            tokio::sim::shutdown();
+            return (n, Some(format!("sender apply failed: {}", e)));
+        }
+        let batch: Vec<Entry<AppTypeConfig>> = entries[cut..(cut + k).min(entries.len())].to_vec();
+        let snap_out: Arc<Mutex<Option<Result<Snapshot<AppTypeConfig>, String>>>> = Arc::new(Mutex::new(None));
+        let apply_out: Arc<Mutex<Option<Result<(), String>>>> = Arc::new(Mutex::new(None));
+        let mut a = sender.clone();
+        let ao = apply_out.clone();
+        tokio::sim::spawn_named("apply", async move {
+            let items: Vec<Result<EntryResponder<AppTypeConfig>, std::io::Error>> = batch.iter().map(|e| Ok((e.clone(), None))).collect();
+            let r = a.apply(futures::stream::iter(items)).await.map_err(|e| e.to_string());
+            *ao.lock().unwrap() = Some(r);
+        });
+        let mut b = sender.clone();
+        let so = snap_out.clone();
+        tokio::sim::spawn_named("build_snapshot", async move {
+            let r = b.build_snapshot().await.map_err(|e| e.to_string());
+            *so.lock().unwrap() = Some(r);
+        });
+        let mut decisions: Vec<usize> = vec![];
+        let mut steps = 0;
+        loop {
+            let ready = tokio::sim::ready_tasks();
+            if ready.is_empty() {
+                break;
+            }
+            let c = prefix.get(decisions.len()).copied().unwrap_or(0);
+            if c >= ready.len() {
+                tokio::sim::shutdown();
+                return (n, Some(format!("internal: schedule prefix {:?} does not replay", prefix)));
+            }
+            decisions.push(ready.len());
+            tokio::sim::step(ready[c]);
+            steps += 1;
+            if steps > 1000 {
+                break;
+            }
+        }
+        for i in prefix.len()..decisions.len() {
+            for alt in 1..decisions[i] {
+                let mut p: Vec<usize> = prefix.clone();
+                p.resize(i, 0);
+                p.push(alt);
+                work.push(p);
+            }
+        }
+        let desc = format!("entries {:?}, {} applied, then apply of {} entries || build_snapshot, schedule {:?}", kinds, cut, k, prefix);
+        let snap = snap_out.lock().unwrap().take();
+        let applied = apply_out.lock().unwrap().take();
+        tokio::sim::shutdown();
+        let (Some(Ok(snap)), Some(Ok(()))) = (snap, applied) else {
+            return (n, Some(format!("{}: a task did not finish (deadlock) or failed", desc)));
+        };
+        let claimed = snap.meta.last_log_id.map(|l| l.index as usize).unwrap_or(0);
+        let r_rec = RecSm::new();
+        let mut receiver = MemStateMachine::new(r_rec.clone() as StateMachine);
+        if let Err(e) = tokio::block_on(receiver.install_snapshot(&snap.meta, snap.snapshot)) {
+            return (n, Some(format!("{}: install_snapshot failed: {}", desc, e)));
+        }
+        if *r_rec.applied.lock().unwrap() != normal_prefix(claimed) {
+            return (
+                n,
+                Some(format!(
+                    "{}: the snapshot claims log index {} but carries the application state of {} commands (expected {}): a receiver installing it never sees the difference",
+                    desc,
+                    claimed,
+                    r_rec.applied.lock().unwrap().len(),
+                    normal_prefix(claimed).len()
+                )),
+            );
+        }
+    }
+    (n, None)
+}
+
 pub fn check_c20b(tier: &str) -> i32 {
     let t0 = Instant::now();
     let thorough = tier == "thorough";
@@ -139,6 +232,24 @@ pub fn check_c20b(tier: &str) -> i32 {
             }
         }
     }
+    // snapshot building racing with an apply batch
+    let mut race_schedules = 0u64;
+    if bad.is_none() {
+        let rmax = if thorough { 5 } else { 4 };
+        'race: for kinds in seqs.iter().filter(|k| !k.is_empty() && k.len() <= rmax) {
+            for cut in 0..kinds.len() {
+                for k in 1..=2usize {
+                    let (m, d) = race_case(kinds, cut, k);
+                    race_schedules += m;
+                    n += 1;
+                    if let Some(d) = d {
+                        bad = Some((format!("entries {:?} (0=normal,1=blank,2=membership), apply of {} entries racing with build_snapshot after {}", kinds, k, cut), d));
+                        break 'race;
+                    }
+                }
+            }
+        }
+    }
     let wall = t0.elapsed().as_secs_f64();
     // known finding?
     let mut known_line = None;
@@ -157,7 +268,7 @@ pub fn check_c20b(tier: &str) -> i32 {
         samples,
         bad.is_none(),
         None,
-        format!("every entry sequence of length 0..{} over {{Normal, Blank, Membership}} x every snapshot point x chunkings {{1,2,7}} through the real MemStateMachine adapter (apply / build_snapshot / install_snapshot / applied_state) wrapping a recording state machine", maxlen),
+        format!("every entry sequence of length 0..{} over {{Normal, Blank, Membership}} x every snapshot point x chunkings {{1,2,7}} through the real MemStateMachine adapter (apply / build_snapshot / install_snapshot / applied_state) wrapping a recording state machine; plus, for sequences up to {}, every interleaving (at the lock acquisitions) of build_snapshot with an apply batch of 1..2 entries at every cut: {} schedules", maxlen, if thorough { 5 } else { 4 }, race_schedules),
         vec!["openraft/futures/bincode stand-ins; a recording state machine stands for the application metadata"],
         (bad.is_some() && known_line.is_none()) as u64,
         wall,
